@@ -127,6 +127,12 @@ class Translate(BaseTranslateFilter, TranslatableFilter):
         plural = kwargs.pop("plural", None)
         n = _count(kwargs.get("count"))
 
+        if plural is not None and n is None:
+            # A pluralizable message without a usable count. Default to 1, like
+            # the `ngettext` filter and the `translate` tag do, so we look up the
+            # message with the function that message extraction reports.
+            n = 1
+
         if plural is not None and n is not None:
             plural = to_liquid_string(
                 plural,
